@@ -11,11 +11,16 @@
    and complete with targets having the core of the advanced kernel's closure (MInv), and every
    item of every state is derivable from the start item by the closure rule and transitions: the
    lookahead sets are the least ones.  So a reported conflict is a conflict of that automaton.
-   NOT proved: equivalence of this characterisation with the textbook merge of canonical LR(1)
-   states; decided per grammar by the check's brute-force LALR(1) reference. *)
+   AND that is the textbook definition (C11_machine_is_the_merge_of_the_canonical_LR1_sets,
+   Build/CanonMachine.v): with I(g) the canonical LR(1) item set reached by reading the viable
+   prefix g (I([]) = closure of the start item, I(g x) = closure(goto(I(g), x))), the items of
+   state k are exactly the union of the I(g) over the g that lead to k, every such I(g) has
+   exactly the core of state k, distinct states have distinct cores, and the FIRST map used by
+   the closure is exactly FIRST / nullable of the grammar (Build/FirstLeast.v).
+   The check still compares every sampled automaton with a brute-force LALR(1) reference. *)
 From Coq Require Import List.
 From Coq Require Import Permutation.
-From Kiki Require Import Base.Ord Base.Chars Data Build.Machine Build.Table Build.TableProofs Build.ClosureProofs Build.MachineSpec Build.DerProofs Build.GenCorrect.
+From Kiki Require Import Base.Ord Base.Chars Data Build.Machine Build.Table Build.TableProofs Build.ClosureProofs Build.MachineSpec Build.DerProofs Build.FirstLeast Build.CanonMachine Build.GenCorrect.
 
 Theorem C11_conflict_is_genuine : forall m f ho e,
   machine_to_table ho m f = Err e ->
@@ -34,5 +39,18 @@ Theorem C11_machine_is_the_lalr_automaton : forall hot fu v m,
              (forall i j si sj, nth_error (m_states m) i = Some si -> nth_error (m_states m) j = Some sj -> same_cores si sj -> i = j).
 Proof. exact machine_is_the_lalr_automaton. Qed.
 
+Theorem C11_machine_is_the_merge_of_the_canonical_LR1_sets : forall hot fu v m,
+  (forall l, Permutation (hot l) l) -> validated_ast_to_machine hot fu v = Ok m ->
+  exists cx, cx_rules cx = get_rules v /\ cx_start cx = vf_start v /\
+    (forall n, (forall t, In t (fs_terminals (fm_get_or_empty (cx_first cx) n)) <-> fder (get_rules v) n t) /\
+               (fs_eps (fm_get_or_empty (cx_first cx) n) = true <-> nder (get_rules v) n)) /\
+    (forall k st it, nth_error (m_states m) k = Some st ->
+                     (In it st <-> exists g, npath m g k /\ nvalid1 cx g it)) /\
+    (forall g k, npath m g k -> forall st it, nth_error (m_states m) k = Some st -> In it st ->
+                 exists it', nvalid1 cx g it' /\ core_of it' = core_of it) /\
+    (forall i j si sj, nth_error (m_states m) i = Some si -> nth_error (m_states m) j = Some sj -> same_cores si sj -> i = j).
+Proof. exact machine_is_merged_canonical_LR1. Qed.
+
 Print Assumptions C11_conflict_is_genuine.
+Print Assumptions C11_machine_is_the_merge_of_the_canonical_LR1_sets.
 Print Assumptions C11_machine_is_the_lalr_automaton.
